@@ -4,7 +4,7 @@
    Mirrors (commit 875a8d5):
      py/compat.py      cache, lru_cache            -> memo_get / memo_put (keys compared by ==/hash)
      serdes.py         strload  (lru, returns the cached object itself)      -> load
-                       isoformat (lru keyed by value equality)               -> iso
+                       isoformat (only its duration writer _isoduration is lru-cached) -> iso
                        dateparse (lru)                                       -> parse
      graph.py          static_order (cache keyed by annotation ==)           -> get_so
      unmarshals/api.py unmarshaller (cache; positional and keyword calls are distinct keys) -> get_um
@@ -34,9 +34,8 @@ Inductive exn := EValue | EType | ESyntax | EAttribute | EKey | EArith | EUnicod
 Inductive res (A : Type) := Ok (a : A) | Raise (e : exn) | Unmodelled.
 Arguments Ok {A}. Arguments Raise {A}. Arguments Unmodelled {A}.
 
-(* the kinds both Union routines suppress; UnicodeError is a ValueError *)
-Definition suppressed (e : exn) : bool :=
-  match e with EValue | EType | ESyntax | EAttribute | EUnicode => true | _ => false end.
+(* both Union routines run each member under contextlib.suppress(Exception): every modelled kind *)
+Definition suppressed (e : exn) : bool := true.
 
 (* ---------------------------------------------------------------- annotations *)
 Inductive sty := SInt | SFloat | SStr | SBytes | SNone | SDateTime | STimeDelta.
@@ -116,6 +115,7 @@ Fixpoint tag (mk : list nat -> prov) (p : list nat) (v : val) : val :=
 Record world := {
   w_text : N -> bool;                 (* istexttype(type(x)): str / bytes *)
   w_temporal : N -> bool;             (* isinstance(x, (date, time, timedelta)) *)
+  w_isdelta : N -> bool;              (* not a date/time: serdes.isoformat hands it to the cached _isoduration *)
   w_isnone : N -> bool;
   w_eqc : N -> N;                     (* representative of the atom's ==/hash class *)
   w_strload : N -> val;               (* body of serdes.strload (a fresh object) *)
@@ -264,7 +264,10 @@ Definition load_w (x : val) (s : state) : val * state :=
       else (x, s)
   | _ => (x, s)
   end.
+(* serdes.isoformat: date / time / datetime are formatted directly (equal instants with different offsets
+   are == and hash equal); only the duration writer _isoduration is memoised *)
 Definition iso_w (a : N) (s : state) : res N * state :=
+  if negb (w_isdelta W a) then (w_iso W a, s) else
   match memo_get atom_eqv N.eqb (t_iso s) a with
   | Some (t, tbl, coll) => (Ok t, flag (set_iso s tbl) coll)
   | None =>
@@ -369,10 +372,12 @@ Fixpoint dict_set (kvs : list (N * val)) (k : N) (v : val) : list (N * val) :=
 
 Definition has_none (ms : list ann) : bool :=
   existsb (fun m => match m with AS SNone => true | _ => false end) ms.
-Definition rotate {A} (l : list A) : list A :=
-  match rev l with [] => [] | x :: r => x :: rev r end.
+Definition is_none_ann (m : ann) : bool := match m with AS SNone => true | _ => false end.
+(* None is checked first wherever it was declared; every other member keeps its declared position *)
+Definition rotate (l : list ann) : list ann :=
+  filter is_none_ann l ++ filter (fun m => negb (is_none_ann m)) l.
 
-(* UnionUnmarshaller.__init__: an optional union tries its last member first *)
+(* UnionUnmarshaller.__init__: an optional union tries None first *)
 Fixpoint rot (a : ann) : ann :=
   match a with
   | AList e => AList (rot e)
